@@ -151,6 +151,15 @@ M = [
     ('mibcopy-strict-skip', 'C20', 'scripts/mibcopy.py', "if dstMibRevision >= srcMibRevision:", "if dstMibRevision > srcMibRevision:"),
     ('dryrun-not-passed', 'C20', 'scripts/mibdump.py', "                           dryRun=dryrunFlag,\n                           dstTemplate", "                           dryRun=False,\n                           dstTemplate"),
     ('usage-exit-ok', 'C20', 'scripts/mibdump.py', "    sys.stderr.write('ERROR: MIB modules names not specified\\r\\n%s\\r\\n' % helpMessage)\n    sys.exit(EX_USAGE)", "    sys.stderr.write('ERROR: MIB modules names not specified\\r\\n%s\\r\\n' % helpMessage)\n    sys.exit(EX_OK)"),
+    # ---- rules added after round 2
+    ('cbwriter-args-swapped', 'C13', 'pysmi/writer/callback.py', "self._cbFun(mibname, data, self._cbCtx)", "self._cbFun(data, mibname, self._cbCtx)"),
+    ('cbwriter-narrow-except', 'C13', 'pysmi/writer/callback.py', "        except Exception:\n            raise error.PySmiWriterError(", "        except KeyError:\n            raise error.PySmiWriterError("),
+    ('pkg-searcher-drops-rebuild', 'C10', 'pysmi/searcher/pypackage.py', ".fileExists(mibname, mtime, rebuild=rebuild)", ".fileExists(mibname, mtime)"),
+    ('zip-mibinfo-alias-file-swapped', 'C14', 'pysmi/reader/zipreader.py', "file=mibfile, name=mibalias", "file=mibalias, name=mibfile"),
+    ('http-mibinfo-wrong-name', 'C14', 'pysmi/reader/httpclient.py', "name=mibalias", "name=mibname"),
+    ('cbreader-ctx-dropped', 'C14', 'pysmi/reader/callback.py', "self._cbFun(mibname, self._cbCtx)", "self._cbFun(mibname, None)"),
+    ('mibdump-json-suffix-mismatch', 'C20', 'scripts/mibdump.py', "fileWriter = FileWriter(dstDirectory).setOptions(suffix='.json')", "fileWriter = FileWriter(dstDirectory).setOptions(suffix='.js')"),
+    ('mibdump-searcher-other-dir', 'C20', 'scripts/mibdump.py', "searchers = [PyFileSearcher(dstDirectory)]", "searchers = [PyFileSearcher(os.path.join(dstDirectory, 'x'))]"),
 ]
 
 
